@@ -9,6 +9,7 @@ import h5py
 import numpy as np
 
 from harness import gen, trees, pipeline, mapcheck
+from harness.props import c18_refside
 
 
 # The reference cells are float32 and the stored centroid (sum / n) carries single-precision rounding: it equals the
@@ -421,6 +422,7 @@ def run(ctx):
         if k < 2:
             ctx.sample(dict(info, n_genes=len(genes), lookup=lookup, factor=factor))
         shutil.rmtree(d, ignore_errors=True)
+    c18_refside.run(ctx)      # reference side of get_leaf_means / assemble_query_data vs Model/RefSide.v
 
 
 def replay(ctx, rec):
